@@ -172,16 +172,17 @@ class Scenario:
     """A sandbox: `tree` maps relative paths to bytes (files), None (directories), ('symlink', target) (a symbolic link; `@R@` in the
     target is the sandbox root), ('fifo',) (a named pipe) or ('file', content, mode) (a regular file with permission bits)."""
 
-    def __init__(self, tools, config, tree, stdin=None, args=(), env=None, devmap=(), mtimes=None, stdin_file=False):
+    def __init__(self, tools, config, tree, stdin=None, args=(), env=None, devmap=(), mtimes=None, stdin_file=False, subst_tree=False):
         self.tools = tools
         self.root = tools.box()
         # stdin_file: standard input is a regular file instead of a pipe, so that every read(2) of a message larger than one
         # buffer returns a full buffer (a pipe fed by the parent returns whatever has arrived: call indices would not be reproducible)
         self.stdin_file = stdin_file
-        self.config = config.replace('@R@', self.root)
+        self.config = config.replace('@R@', self.root).replace('@B@', os.path.basename(self.root))     # @B@: the root's own name (`../@B@/x`)
         self.stdin = stdin
         self.args = list(args)
-        self.env_extra = {k: v.replace('@R@', self.root) for k, v in (env or {}).items()}
+        # a value of None removes the variable from the environment of the run (HOME, TMPDIR, TZ unset)
+        self.env_extra = {k: (v.replace('@R@', self.root) if v is not None else None) for k, v in (env or {}).items()}
         self.devmap = [d.replace('@R@', self.root) for d in devmap]
         for rel, data in tree.items():
             p = os.path.join(fsb(self.root), fsb(rel))
@@ -204,7 +205,8 @@ class Scenario:
             else:
                 os.makedirs(os.path.dirname(p), exist_ok=True)
                 with open(p, 'wb') as fh:
-                    fh.write(data)
+                    # subst_tree: `@R@` inside file contents is the sandbox root too (further configuration files of the scenario)
+                    fh.write(data.replace(b'@R@', fsb(self.root)) if subst_tree else data)
         # every message gets a distinct modification time in the past (whole seconds + a ns part), so that "a moved message
         # keeps its modification time" is observable and a file written during the run can be told apart
         import time as _time
@@ -235,8 +237,11 @@ class Scenario:
         if os.path.exists(self.root + '.stdin'):
             os.unlink(self.root + '.stdin')
 
-    def run(self, fail=None, kill=None, pause=None, pause_cmd=None, trace=True, shim=True, timeout=30, tag='run', fsize=None):
-        """fsize=N: the kernel's file size limit (VSHIM_FSIZE): writes crossing N bytes are short, beyond it they fail with EFBIG -
+    def run(self, fail=None, kill=None, pause=None, pause_cmd=None, trace=True, shim=True, timeout=30, tag='run', fsize=None, argv=None,
+            cwd=None, uid=None):
+        """argv: the complete argument vector after argv[0] (instead of `-f <root>/conf` + args; `@R@` is replaced); cwd: the working
+        directory of the run relative to the sandbox root (default: the root itself); uid: run as this numeric user and group (the check
+        itself must be root; used for a user without password entry).  fsize=N: the kernel's file size limit (VSHIM_FSIZE): writes crossing N bytes are short, beyond it they fail with EFBIG -
         also the write(2) calls stdio issues by itself, which `fail=` cannot reach."""
         env = {'PATH': os.environ.get('PATH', '/usr/bin:/bin'), 'HOME': os.path.join(self.root, 'home'),
                'TMPDIR': os.path.join(self.root, 'tmp'), 'LC_ALL': 'C',
@@ -249,6 +254,9 @@ class Scenario:
             env.update(PIN)
             if trace:
                 env['VSHIM_LOG'] = log
+                if uid is not None:
+                    open(log, 'w').close()
+                    os.chown(log, uid, uid)
             if fail:
                 env['VSHIM_FAIL'] = fail
             if kill is not None:
@@ -263,8 +271,13 @@ class Scenario:
             if os.environ.get('VSHIM_OFF_AT_EXIT'):         # coverage measurement runs only (tools/cov.py)
                 env['VSHIM_OFF_AT_EXIT'] = os.environ['VSHIM_OFF_AT_EXIT']
         env.update(self.env_extra)
-        env = {fsb(k): fsb(v) for k, v in env.items()}      # values may name directories with arbitrary bytes (HOME, TMPDIR)
-        cmd = [self.tools.mdsort, '-f', os.path.join(self.root, 'conf')] + self.args
+        env = {fsb(k): fsb(v) for k, v in env.items() if v is not None}      # values may name directories with arbitrary bytes (HOME, TMPDIR)
+        if argv is not None:
+            cmd = [fsb(self.tools.mdsort)] + [fsb(a.replace('@R@', self.root) if isinstance(a, str) else a) for a in argv]
+        else:
+            cmd = [self.tools.mdsort, '-f', os.path.join(self.root, 'conf')] + self.args
+        rundir = self.root if cwd is None else os.path.join(self.root, cwd)
+        ids = {} if uid is None else {'user': uid, 'group': uid, 'extra_groups': []}
         sin = None
         if self.stdin_file and self.stdin is not None:
             sp = self.root + '.stdin'
@@ -274,10 +287,10 @@ class Scenario:
             sin = open(sp, 'rb')
         try:
             if sin is not None:
-                r = subprocess.run(cmd, stdin=sin, capture_output=True, env=env, timeout=timeout, cwd=self.root)
+                r = subprocess.run(cmd, stdin=sin, capture_output=True, env=env, timeout=timeout, cwd=rundir, **ids)
             else:
                 r = subprocess.run(cmd, input=self.stdin if self.stdin is not None else b'', capture_output=True, env=env,
-                                   timeout=timeout, cwd=self.root)
+                                   timeout=timeout, cwd=rundir, **ids)
             status, out, err = r.returncode, r.stdout, r.stderr
         except subprocess.TimeoutExpired as e:
             status, out, err = 'timeout', e.stdout or b'', e.stderr or b''
